@@ -52,7 +52,8 @@ class Fixtures(dict):
             "ed": lambda: A.jkey(scen.key("Ed25519"), "native"),
             "x": lambda: A.jkey(scen.key("X25519"), "dict"),
             "oct16": lambda: A.jkey(scen.key("oct16"), "bytes"),
-            "octlong": lambda: A.jkey(scen.key("oct200"), "bytes"),          # longer than the block size of every HS* hash
+            "octlong": lambda: A.jkey(scen.key("oct200"), "bytes"),
+            "ec_ops": lambda: A.jkey({**scen.key("P-256", 2), "key_ops": ["sign", "verify"]}, "dict"),     # declares its operations in a list          # longer than the block size of every HS* hash
             "sender1pu": lambda: A.jkey(scen.key("X25519", 5), "dict"),      # one ECDH-1PU sender talking to several kid-less peers
             "rcpt1pu": lambda: A.jkey(scen.key("X25519", 6), "dict"),
             "set": lambda: KeySet([A.jkey(scen.key("oct32", 1), "bytes"), A.jkey(scen.key("oct32", 2), "bytes")]),
@@ -74,7 +75,7 @@ def fixtures(eager=()):
     return f
 
 
-ALL_FIXTURES = ["oct", "ec", "ec_pub", "rsa", "ed", "x", "oct16", "octlong", "sender1pu", "rcpt1pu", "set", "ecset", "jwsreg", "jwereg", "jwereg_custom", "jwsreg_custom"]
+ALL_FIXTURES = ["oct", "ec", "ec_pub", "rsa", "ed", "x", "oct16", "octlong", "ec_ops", "sender1pu", "rcpt1pu", "set", "ecset", "jwsreg", "jwereg", "jwereg_custom", "jwsreg_custom"]
 
 
 def ref_token(alg, kind, which=0, kid=None, payload=PT, bad=False):
@@ -157,6 +158,7 @@ def obs_decrypt(r):
 def make_ops():
     """name -> callable(fixtures, draws_of_this_call) -> observation. Each call builds its own header / claims objects."""
     from joserfc import jws, jwe, jwt, rfc7797
+    from joserfc.jwk import KeySet
     ops = {}
 
     def add(name, fn):
@@ -263,6 +265,11 @@ def make_ops():
             r.value.plaintext = b""
         return o
     add("decrypt dir+A256GCM, then the caller edits the returned object [oct key]", decrypt_and_edit)
+    add("sign ES256 [ec key declaring key_ops]", lambda f, d: obs_sign(call(jws.serialize_compact, {"alg": "ES256"}, PT, f["ec_ops"]), K("P-256", 2)))
+    add("as_dict public [ec key declaring key_ops]", lambda f, d: ("export", tuple(sorted((k, str(v)) for k, v in f["ec_ops"].as_dict(private=False).items() if k != "kid"))))
+    add("key set public export [ec key declaring key_ops]", lambda f, d: ("export", json.dumps([{k: v for k, v in e.items() if k != "kid"} for e in KeySet([f["ec_ops"]]).as_dict(private=False)["keys"]], sort_keys=True)))
+    # registering the built-in algorithms again is what a second import path, a plugin or a reloader does; the outcome of it is nothing
+    add("register the built-in JWS algorithms again", lambda f, d: ("registered", jws.register_algorithms() is None))
     add("jwt.encode HS256 [oct key]", lambda f, d: obs_sign(call(jwt.encode, {"alg": "HS256"}, {"iss": "joe"}, f["oct"]), K("oct32")))
     add("jwt.decode HS256 [oct key]", lambda f, d: (lambda r: ("claims", r.value.claims, tuple(sorted(r.value.header))) if r.ok else ("rej", type(r.exc).__name__))(call(jwt.decode, ref_token("HS256", "oct32"), f["oct"])))
     # JWE
@@ -383,7 +390,8 @@ CONC_MENU = [
     "jwt.encode HS256 [oct key]", "verify HS512 allow-list [oct key]", "verify HS512 not allowed by default [oct key]", "key set as_dict",
     "verify HS256 allow-list HS256 only [oct key]", "verify HS384 rejected by allow-list HS256 [oct key]", "decrypt A192KW allow-list [oct24 key]",
     "decrypt A192KW not allowed by default", "decrypt PBES2 [oct16 key, shared JWERegistry]", "decrypt PBES2 second token [oct16 key, shared JWERegistry]",
-    "encrypt PBES2 [oct16 key, shared JWERegistry]", "decrypt A128KW [oct16 key]",
+    "encrypt PBES2 [oct16 key, shared JWERegistry]", "decrypt A128KW [oct16 key]", "register the built-in JWS algorithms again",
+    "as_dict public [ec key declaring key_ops]", "sign ES256 [ec key declaring key_ops]",
 ]
 _ISO = {}
 NEEDS = {}
@@ -444,7 +452,7 @@ def numbers_of(key):
     return rjwk.export(raw, private=key.is_private)
 
 
-QUICK_MENU = [0, 1, 2, 5, 6, 7, 8, 9, 11, 12, 15, 18, 20, 21, 22, 25, 26]
+QUICK_MENU = [0, 1, 2, 5, 6, 7, 8, 9, 11, 12, 15, 18, 20, 21, 22, 25, 26, 29]
 
 
 def h_pairs(ctx):
